@@ -67,6 +67,13 @@ func vClearAccessHook()
 func vWatchedReads() int
 func vHash(kind string, data []byte, n int) []byte
 func vSchedule()
+func vThreads()
+func vYield()
+func vLiveThreads() int
+func vTimerCount() int
+func vTimerNanos(k int) int64
+func vTimerArmed(k int) bool
+func vTimerFire(k int)
 func vCtxTimeout(ctx interface{ Done() <-chan struct{} }) (int64, bool)
 `
 
